@@ -408,7 +408,8 @@ def qb : Query := { net := 11, key := 8, hard := true }
 
 def raceTrials : Nat → Nat → Log := fun t i => [(⟨0, 0⟩, tr (3 + t + i))]
 
-def raceCfg (ov : Overwrite) : Cfg := { mode := .reusable, overwrite := ov, trials := raceTrials }
+def raceCfg (ov : Overwrite) : Cfg :=
+  { mode := .reusable, overwrite := ov, trials := raceTrials, objOf := fun _ => 0 }
 
 def raceStart : Sys := Sys.start fun t => if t = 0 then [qa, qb] else if t = 1 then [qb, qa] else []
 
